@@ -5,6 +5,7 @@ package keys
 import (
 	"errors"
 	"fmt"
+	"google.golang.org/protobuf/types/known/structpb"
 	"reflect"
 	"strings"
 	"unicode"
@@ -80,9 +81,17 @@ func (t T) rtype() reflect.Type {
 		return reflect.SliceOf(reflect.PointerTo(t.structType()))
 	case "structs":
 		return reflect.SliceOf(t.structType())
+	case "iface", "ifacev":
+		return ifaceType
+	case "ifaces":
+		return reflect.SliceOf(ifaceType)
+	case "pptr":
+		return reflect.PointerTo(reflect.PointerTo(t.structType()))
 	}
 	return reflect.TypeOf("")
 }
+
+var ifaceType = reflect.TypeOf((*interface{})(nil)).Elem()
 
 // fill sets rv (addressable, of type t.rtype()) from v.
 func fill(t T, v V, rv reflect.Value) {
@@ -151,6 +160,39 @@ func fill(t T, v V, rv reflect.Value) {
 			}
 			rv.Set(s)
 		}
+	case "iface":
+		// the shape generated code gives a protobuf oneof: an interface holding a pointer to a message
+		if !v.Nil {
+			p := reflect.New(t.structType())
+			fillStruct(p.Elem(), v)
+			rv.Set(p)
+		}
+	case "ifacev":
+		if !v.Nil {
+			p := reflect.New(t.structType())
+			fillStruct(p.Elem(), v)
+			rv.Set(p.Elem())
+		}
+	case "ifaces":
+		if !v.Nil {
+			s := reflect.MakeSlice(rv.Type(), len(v.Items), len(v.Items))
+			for i, it := range v.Items {
+				if !it.Nil {
+					p := reflect.New(t.structType())
+					fillStruct(p.Elem(), it)
+					s.Index(i).Set(p)
+				}
+			}
+			rv.Set(s)
+		}
+	case "pptr":
+		if !v.Nil {
+			p := reflect.New(t.structType())
+			fillStruct(p.Elem(), v)
+			pp := reflect.New(p.Type())
+			pp.Elem().Set(p)
+			rv.Set(pp)
+		}
 	}
 }
 
@@ -180,7 +222,9 @@ func Ref(v reflect.Value, path []string, i int) ([]string, error) {
 	if !v.IsValid() {
 		return nil, errRef // nil message
 	}
-	if v.Kind() == reflect.Pointer || v.Kind() == reflect.Interface {
+	// "through nested messages and pointers": every level of pointer / interface (a oneof is an interface
+	// holding a pointer)
+	for n := 0; n < 32 && (v.Kind() == reflect.Pointer || v.Kind() == reflect.Interface); n++ {
 		if v.IsNil() {
 			return nil, errRef // nil (nested) message
 		}
@@ -328,6 +372,8 @@ func exotics() []interface{} {
 			emb4: emb4{emb5: emb5{emb6: emb6{emb7: emb7{"n7", "r7", "z7"}, Name6: "n6", Region6: "r6"}, Name5: "n5", Region5: "r5"}, Name4: "n4", Region4: "r4"}, Gamma: "g1"}, Delta: "d0",
 			Sub: &embTop{Emb1: Emb1{Emb2: Emb2{Emb3: Emb3{Name: "sn3", Region: "sr3", Zone: "sz3"}}}}},
 		embTop{},
+		structpb.NewStringValue("oneof-string"), structpb.NewNumberValue(3), &structpb.Value{}, &structpb.ListValue{Values: []*structpb.Value{structpb.NewStringValue("l1"), structpb.NewStringValue("l2")}},
+		&structpb.ListValue{Values: []*structpb.Value{structpb.NewStringValue("l1"), structpb.NewBoolValue(true)}}, structpb.NewListValue(&structpb.ListValue{Values: []*structpb.Value{structpb.NewStringValue("deep")}}),
 		&oddNames{_ids: []string{"u1", "u2"}, _id: "u0", 名前: "n", 名前たち: []string{"n1"}, Key_2: "k2", Shard_1: []string{"s1", "s2"}, X_: "x", In_: in}, oddNames{_ids: []string{"v"}}, &oddNames{},
 		&pb.ApiConfig{}, &pb.ApiConfig{ChannelPool: &pb.ChannelPoolConfig{MaxSize: 3}, Method: []*pb.MethodConfig{{Name: []string{"m1", "m2"}, Affinity: &pb.AffinityConfig{AffinityKey: "k"}}, nil, {Name: nil}}},
 		(*pb.ApiConfig)(nil), &hw.HelloRequest{Name: "n"}, &hw.HelloReply{}, hw.HelloRequest{Name: "byvalue"},
@@ -342,6 +388,7 @@ var ExoticLocators = []string{"key", "keys", "Key", "other", "inner.key", "inner
 	"token", "items.key", "items.other", "items", "extra", "channelPool.maxSize", "channelPool", "method.name", "method.affinity.affinityKey", "method.affinity", "name", "message", "state", "sizeCache", "unknownFields", "", ".", "..", "key.", ".key", "key..x", "a.b.c.d.e.f", "kéy", "ключ", "key key", "KEY", "\x00", "key\n",
 	"region", "zone", "names", "alpha", "beta", "gamma", "delta", "name4", "region4", "name5", "region5", "name6", "region6", "name7", "region7", "zone7", "sub.name", "sub.region", "sub.zone", "sub.alpha", "sub.sub.name",
 	"emb1.name", "emb1.emb2.emb3.region", "emb3.zone", "emb2.beta",
+	"kind.stringValue", "kind.numberValue", "kind", "values.kind.stringValue", "values.kind", "kind.listValue.values.kind.stringValue", "values",
 	"_ids", "_id", "名前", "名前たち", "key_2", "shard_1", "x_", "in_.key", "in_.keys", "in_._", "_", "__", "key_", "_key", "in__key", "_.key", "key._"}
 
 // reachable collects every string reachable in v.
@@ -443,8 +490,13 @@ func protoLike(t reflect.Type, seen map[reflect.Type]bool) bool {
 	switch t.Kind() {
 	case reflect.Struct:
 		return structOK(t)
+	case reflect.Interface:
+		return true // whatever it holds, the traversal of the value is defined (Ref works on values)
 	case reflect.Pointer:
 		e := t.Elem()
+		if e.Kind() == reflect.Pointer {
+			return protoLike(e, seen)
+		}
 		return e.Kind() == reflect.String || (e.Kind() == reflect.Struct && protoLike(e, seen))
 	case reflect.Slice:
 		e := t.Elem()
@@ -453,6 +505,9 @@ func protoLike(t reflect.Type, seen map[reflect.Type]bool) bool {
 		}
 		if e.Kind() == reflect.Struct {
 			return protoLike(e, seen)
+		}
+		if e.Kind() == reflect.Interface {
+			return true
 		}
 		return e.Kind() == reflect.Pointer && e.Elem().Kind() == reflect.Struct && protoLike(e.Elem(), seen)
 	}
@@ -562,7 +617,7 @@ func pathCrosses(t *T, path []string) bool {
 		for _, f := range cur.Fields {
 			if f.Name == upperFirst(seg) {
 				switch f.T.Kind {
-				case "ptr", "ptrs", "structs", "strs", "pstring":
+				case "ptr", "ptrs", "structs", "strs", "pstring", "iface", "ifacev", "ifaces", "pptr":
 					return true
 				}
 				cur, found = f.T, true
